@@ -463,10 +463,11 @@ impl Ctx {
     }
     pub fn update(&mut self, cfg: &Cfg) -> Obs {
         let t0 = thread_cpu_us();
-        // every other re-configuration re-uses the configuration OBJECT the context was given before, changed in place (a
-        // front-end keeps one object); the others hand over a new object
+        // every other re-configuration (counted over the whole process) re-uses the configuration OBJECT the context was given
+        // before, changed in place (a front-end keeps one object); the others hand over a new object
         self.updates += 1;
-        if self.updates % 2 == 0 && cfg.db == self.cfg.db {
+        static UPDATES: std::sync::atomic::AtomicU64 = std::sync::atomic::AtomicU64::new(0);
+        if UPDATES.fetch_add(1, std::sync::atomic::Ordering::Relaxed) % 2 == 0 && cfg.db == self.cfg.db {
             self.real.apply(cfg);
             let r = self.call(Op::Update(self.real.get_static()));
             self.cfg = cfg.clone();
